@@ -325,102 +325,298 @@ Qed.
 Lemma nth_error_pre {A} (pre : list A) a post : nth_error (pre ++ a :: post) (List.length pre) = Some a.
 Proof. induction pre; cbn; auto. Qed.
 
-(* The general theorem: for any file system, load paths, importer and url, the model resolves
-   the url `dir(cur) ++ url` to a file the documented order allows when the places are the
-   load paths in order.  For an importer at the root (dir(cur) = "") this is the property. *)
+(* do_find_file twice in sequence = one scan of the concatenated names (the shape of find_file
+   after fix 3dfdada: relative url first, then the url unchanged) *)
+Lemma try_names_app orc s a b :
+  try_names orc s (a ++ b) = match try_names orc s a with FNone s' => try_names orc s' b | r => r end.
+Proof.
+  revert s. induction a as [|x r IH]; intros s; cbn [app try_names]; [reflexivity|].
+  destruct (orc (calls s) x); auto.
+Qed.
+
+Lemma find_file_two_phase orc cur k u s :
+  try_names orc s (find_names cur k u) =
+  match try_names orc s (probe_names (relative cur u) (cands k)) with
+  | FNone s' => if String.eqb (relative cur u) u then FNone s' else try_names orc s' (probe_names u (cands k))
+  | r => r
+  end.
+Proof.
+  unfold find_names. rewrite try_names_app.
+  destruct (try_names orc s (probe_names (relative cur u) (cands k))); auto.
+  destruct (String.eqb (relative cur u) u); reflexivity.
+Qed.
+
+(* ---------- strings: directory parts ---------- *)
+Lemma split_dir_selfdir s : fst (split_dir (fst (split_dir s))) = fst (split_dir s).
+Proof.
+  induction s as [|c r IH]; [reflexivity|]. cbn [split_dir].
+  destruct (split_dir r) as [b n] eqn:E. cbn [fst] in IH.
+  destruct (String.eqb b "") eqn:Eb.
+  - destruct (Ascii.eqb c "/") eqn:Ec; [|reflexivity]. apply Ascii.eqb_eq in Ec. subst c. reflexivity.
+  - cbn [fst]. cbn [split_dir]. destruct (split_dir b) as [b2 n2] eqn:E2. cbn [fst] in IH. subst b2.
+    rewrite Eb. reflexivity.
+Qed.
+
+Lemma split_dir_prefix d x : fst (split_dir d) = d ->
+  split_dir (d ++ x)%string = ((d ++ fst (split_dir x))%string, snd (split_dir x)).
+Proof.
+  induction d as [|c r IH]; intros H.
+  - cbn. destruct (split_dir x); reflexivity.
+  - cbn [split_dir] in H. destruct (split_dir r) as [b n] eqn:E. cbn [append split_dir].
+    destruct (String.eqb b "") eqn:Eb.
+    + destruct (Ascii.eqb c "/") eqn:Ec; cbn [fst] in H; [|discriminate].
+      inversion H; subst r. cbn [append]. destruct (split_dir x) as [bx nx]. cbn [fst snd].
+      destruct (String.eqb bx "") eqn:Ex.
+      * apply String.eqb_eq in Ex. subst bx. reflexivity.
+      * reflexivity.
+    + cbn [fst] in H. inversion H; subst b.
+      rewrite (IH eq_refl).
+      cbn [fst snd].
+      assert (Hne : String.eqb (r ++ fst (split_dir x))%string "" = false).
+      { destruct r; [discriminate|reflexivity]. }
+      rewrite Hne. reflexivity.
+Qed.
+
+Lemma spec_name_prefix d b n c : spec_name (d ++ b)%string n c = (d ++ spec_name b n c)%string.
+Proof. destruct c as [[] e]; unfold spec_name; cbn [fst snd]; rewrite app_assoc_s; reflexivity. Qed.
+
+Lemma prefix_neq d u : d <> "" -> (d ++ u)%string <> u.
+Proof.
+  intros Hd E. apply (f_equal String.length) in E.
+  assert (L : forall a b, String.length (a ++ b)%string = String.length a + String.length b)
+    by (induction a; cbn; intros; [reflexivity|rewrite IHa; reflexivity]).
+  rewrite L in E. destruct d; [congruence|cbn in E; lia].
+Qed.
+
+(* ---------- one scan of the candidates of a url, over any file system and load paths ---------- *)
 Section Main.
 Variable isfile : string -> option string.
 Variable bases : list string.
 
-Definition resolve (cur : string) (k : kind) (url : string) : found :=
-  try_names (orc_of (fs_find isfile bases)) (st0 "") (probe_names (relative cur url) (cands k)).
+Definition scan (x : string) (k : kind) (s : state) : found :=
+  try_names (orc_of (fs_find isfile bases)) s (probe_names x (cands k)).
 
-Theorem resolve_allowed cur k url p f rd s' :
-  is_direct (relative cur url) = false ->
-  resolve cur k url = FFound p f rd s' ->
-  In f (allowed isfile (is_import k) (map dir_prefix bases)
-          (fst (split_dir (relative cur url))) (snd (split_dir (relative cur url)))).
+(* Context::find_file's lookup for a load of `url` written in the file known as `cur` *)
+Definition resolve (cur : string) (k : kind) (url : string) : found :=
+  try_names (orc_of (fs_find isfile bases)) (st0 "") (find_names cur k url).
+
+Lemma scan_found x k s p f rd s' :
+  is_direct x = false -> scan x k s = FFound p f rd s' ->
+  exists c lpre lpost bpre bx bpost,
+    code_order k = lpre ++ c :: lpost /\ p = spec_name (fst (split_dir x)) (snd (split_dir x)) c /\
+    bases = bpre ++ bx :: bpost /\ isfile (join bx p) = Some f /\
+    (forall b', In b' bpre -> isfile (join b' p) = None) /\
+    (forall c' b', In c' lpre -> In b' bases ->
+        isfile (join b' (spec_name (fst (split_dir x)) (snd (split_dir x)) c')) = None).
 Proof.
-  intros Hd H. unfold resolve, probe_names in H. rewrite Hd in H.
-  destruct (split_dir (relative cur url)) as [b n] eqn:Sp. cbn [fst snd].
+  intros Hd H. unfold scan, probe_names in H. rewrite Hd in H.
+  destruct (split_dir x) as [b n] eqn:Sp. cbn [fst snd].
   rewrite code_order_names in H.
   apply try_names_found in H as (pre & post & Hn & Hf & _ & Hpre).
   apply map_eq_app in Hn as (lpre & lrest & Hl & Hpre' & Hrest).
   destruct lrest as [|c lpost]; [discriminate|]. cbn in Hrest. inversion Hrest as [[Hp Hpost]]. clear Hrest.
-  apply load_paths_in_order in Hf as (bpre & b0 & bpost & Hb & Hfile & Hbpre).
-  assert (Hcdoc : In c (spec_cands (is_import k))).
-  { apply code_order_documented. rewrite Hl. apply in_or_app; right; left; reflexivity. }
-  set (t := (List.length bpre, c, f)).
-  change f with (snd t). unfold allowed. apply in_allowed_gen.
-  - apply in_existing_gen. exists (List.length bpre), (dir_prefix b0), c, (spec_name b n c), f.
-    repeat split.
-    + rewrite Hb, map_app. cbn. rewrite <- (map_length dir_prefix bpre). apply nth_error_pre.
-    + unfold cand_names. apply in_map_iff. exists c. split; auto.
-    + rewrite <- join_prefix, Hp. exact Hfile.
-  - intros t' Ht'. apply in_existing_gen in Ht' as (j & l & c' & nm & f' & Hj & Hc' & Hf' & ->).
-    unfold cand_names in Hc'. apply in_map_iff in Hc' as (c0 & E & Hc0). inversion E; subst c0 nm. clear E.
-    rewrite nth_error_map in Hj. destruct (nth_error bases j) as [bj|] eqn:Hbj; [|discriminate].
-    cbn in Hj. inversion Hj; subst l. clear Hj. rewrite <- join_prefix in Hf'.
-    unfold t, definitely_before.
-    destruct (Nat.leb j (List.length bpre)) eqn:Le; [|reflexivity]. cbn [andb].
-    apply Nat.leb_le in Le.
-    destruct (scand_eqb c' c) eqn:Ec.
-    + apply scand_eqb_eq in Ec. subst c'. cbn [orb andb].
-      destruct (Nat.eqb j (List.length bpre)) eqn:Ej; [reflexivity|]. exfalso.
-      apply Nat.eqb_neq in Ej. assert (Hlt : j < List.length bpre) by lia.
-      rewrite Hb, nth_error_app1 in Hbj by assumption. apply nth_error_In in Hbj.
-      rewrite Hp in *. rewrite (Hbpre bj Hbj) in Hf'. discriminate.
-    + cbn [orb]. destruct (doc_before c' c) eqn:Db; [|reflexivity]. exfalso.
-      pose proof (code_order_ext k) as E. unfold linear_extension in E.
-      apply andb_prop in E as [_ E]. rewrite forallb_forall in E. specialize (E c' Hc0).
-      rewrite forallb_forall in E. specialize (E c Hcdoc). rewrite Db in E. cbn in E.
-      apply (before_in_pre _ _ _ _ _ E) in Hl.
-      assert (Hin : In (spec_name b n c') pre) by (rewrite <- Hpre'; apply in_map; exact Hl).
-      apply Hpre in Hin. apply (proj1 (load_paths_none _ _ _ (spec_name_nonempty b n c'))) with (b := bj) in Hin; [|eapply nth_error_In; eauto].
-      rewrite Hin in Hf'. discriminate.
+  subst p. apply load_paths_in_order in Hf as (bpre & bx & bpost & Hb & Hfile & Hbpre).
+  exists c, lpre, lpost, bpre, bx, bpost. repeat split; auto.
+  intros c' b' Hc' Hb'.
+  assert (Hin : In (spec_name b n c') pre) by (rewrite <- Hpre'; apply in_map; exact Hc').
+  apply Hpre in Hin. apply (proj1 (load_paths_none _ _ _ (spec_name_nonempty b n c'))) with (b := b') in Hin; auto.
 Qed.
 
-(* nothing is found exactly when no candidate exists under any load path *)
-Theorem resolve_none_iff cur k url :
-  is_direct (relative cur url) = false ->
+Lemma covered k c : In c (spec_cands (is_import k)) -> In c (code_order k).
+Proof.
+  intros Hc. pose proof (code_order_ext k) as X. unfold linear_extension in X.
+  apply andb_prop in X as [X _]. apply andb_prop in X as [_ X]. rewrite forallb_forall in X.
+  specialize (X c Hc). apply existsb_exists in X as (c1 & Hc1 & E). apply scand_eqb_eq in E. subst. exact Hc1.
+Qed.
+
+Lemma scan_none x k s :
+  is_direct x = false ->
+  ((exists s', scan x k s = FNone s') <->
+   forall c b', In c (spec_cands (is_import k)) -> In b' bases ->
+     isfile (join b' (spec_name (fst (split_dir x)) (snd (split_dir x)) c)) = None).
+Proof.
+  intros Hd. unfold scan, probe_names. rewrite Hd.
+  destruct (split_dir x) as [b n] eqn:Sp. cbn [fst snd].
+  rewrite code_order_names, try_names_none. split.
+  - intros H c b' Hc Hb'. apply covered in Hc.
+    assert (Hq : In (spec_name b n c) (map (spec_name b n) (code_order k))) by (apply in_map; exact Hc).
+    apply H in Hq. apply (proj1 (load_paths_none _ _ _ (spec_name_nonempty b n c))) with (b := b') in Hq; auto.
+  - intros H q Hq. apply in_map_iff in Hq as (c & <- & Hc).
+    apply load_paths_none; [apply spec_name_nonempty|]. intros bj Hbj. apply H; auto.
+    apply code_order_documented. exact Hc.
+Qed.
+
+Lemma doc_before_pre k c c' lpre lpost :
+  code_order k = lpre ++ c :: lpost -> In c' (spec_cands (is_import k)) -> In c (spec_cands (is_import k)) ->
+  doc_before c' c = true -> In c' lpre.
+Proof.
+  intros Hl Hc' Hc Db. pose proof (code_order_ext k) as E. unfold linear_extension in E.
+  apply andb_prop in E as [_ E]. rewrite forallb_forall in E. specialize (E c' Hc').
+  rewrite forallb_forall in E. specialize (E c Hc). rewrite Db in E. cbn in E.
+  eapply before_in_pre; eauto.
+Qed.
+
+(* how a file is shown to be allowed: it exists at place i as candidate c, and nothing that the text
+   definitely tries earlier exists *)
+Lemma allowed_intro locs imp b n i l c f :
+  nth_error locs i = Some l -> In c (spec_cands imp) -> isfile (l ++ spec_name b n c)%string = Some f ->
+  (forall j l' c' f', nth_error locs j = Some l' -> In c' (spec_cands imp) ->
+      isfile (l' ++ spec_name b n c')%string = Some f' -> j <= i ->
+      (c' = c -> j = i) /\ doc_before c' c = false) ->
+  In f (allowed isfile imp locs b n).
+Proof.
+  intros Hi Hc Hf Hmin. set (t := (i, c, f)). change f with (snd t). unfold allowed. apply in_allowed_gen.
+  - apply in_existing_gen. exists i, l, c, (spec_name b n c), f. repeat split; auto.
+    unfold cand_names. apply in_map_iff. exists c. auto.
+  - intros t' Ht'. apply in_existing_gen in Ht' as (j & l' & c' & nm & f' & Hj & Hc' & Hf' & ->).
+    unfold cand_names in Hc'. apply in_map_iff in Hc' as (c0 & E & Hc0). inversion E; subst c0 nm. clear E.
+    unfold t, definitely_before.
+    destruct (Nat.leb j i) eqn:Le; [|reflexivity]. cbn [andb]. apply Nat.leb_le in Le.
+    destruct (Hmin j l' c' f' Hj Hc0 Hf' Le) as [M1 M2]. rewrite M2.
+    destruct (scand_eqb c' c) eqn:Ec; [|reflexivity]. apply scand_eqb_eq in Ec. specialize (M1 Ec). subst j.
+    rewrite Nat.eqb_refl. reflexivity.
+Qed.
+
+Lemma resolve_root cur k url : fst (split_dir cur) = "" -> resolve cur k url = scan url k (st0 "").
+Proof.
+  intros Hc. unfold resolve, scan, find_names, relative. rewrite Hc. cbn [append].
+  rewrite String.eqb_refl, app_nil_r. reflexivity.
+Qed.
+
+(* importer at the root: the resolved file is one the text allows *)
+Theorem root_allowed cur k url p f rd s' :
+  fst (split_dir cur) = "" -> is_direct url = false ->
+  resolve cur k url = FFound p f rd s' ->
+  In f (allowed isfile (is_import k) (map dir_prefix bases) (fst (split_dir url)) (snd (split_dir url))).
+Proof.
+  intros Hc Hd H. rewrite (resolve_root cur k url Hc) in H.
+  apply scan_found in H as (c & lpre & lpost & bpre & bx & bpost & Hl & Hp & Hb & Hfile & Hbpre & Hlpre); auto.
+  assert (Hcdoc : In c (spec_cands (is_import k))).
+  { apply code_order_documented. rewrite Hl. apply in_or_app; right; left; reflexivity. }
+  apply (allowed_intro _ _ _ _ (List.length bpre) (dir_prefix bx) c); auto.
+  - rewrite Hb, map_app. cbn. rewrite <- (map_length dir_prefix bpre). apply nth_error_pre.
+  - rewrite <- join_prefix, <- Hp. exact Hfile.
+  - intros j l' c' f' Hj Hc' Hf' Le.
+    rewrite nth_error_map in Hj. destruct (nth_error bases j) as [bj|] eqn:Hbj; [|discriminate].
+    cbn in Hj. inversion Hj; subst l'. clear Hj. rewrite <- join_prefix in Hf'. split.
+    + intros ->. destruct (Nat.eq_dec j (List.length bpre)) as [|Ne]; [assumption|]. exfalso.
+      assert (Hlt : j < List.length bpre) by lia.
+      rewrite Hb, nth_error_app1 in Hbj by assumption. apply nth_error_In in Hbj.
+      rewrite <- Hp, (Hbpre bj Hbj) in Hf'. discriminate.
+    + destruct (doc_before c' c) eqn:Db; [|reflexivity]. exfalso.
+      pose proof (doc_before_pre k c c' lpre lpost Hl Hc' Hcdoc Db) as Hin.
+      apply nth_error_In in Hbj. rewrite (Hlpre c' bj Hin Hbj) in Hf'. discriminate.
+Qed.
+
+Theorem root_none_iff cur k url :
+  fst (split_dir cur) = "" -> is_direct url = false ->
   ((exists s', resolve cur k url = FNone s') <->
    existing_gen isfile (map dir_prefix bases)
-     (cand_names (is_import k) (fst (split_dir (relative cur url))) (snd (split_dir (relative cur url)))) = []).
+     (cand_names (is_import k) (fst (split_dir url)) (snd (split_dir url))) = []).
 Proof.
-  intros Hd. unfold resolve, probe_names. rewrite Hd.
-  destruct (split_dir (relative cur url)) as [b n] eqn:Sp. cbn [fst snd].
-  rewrite code_order_names, try_names_none. split.
+  intros Hc Hd. rewrite (resolve_root cur k url Hc), (scan_none url k (st0 "") Hd). split.
   - intros H. destruct (existing_gen _ _ _) as [|t r] eqn:E; [reflexivity|]. exfalso.
-    assert (Ht : In t (existing_gen isfile (map dir_prefix bases) (cand_names (is_import k) b n)))
-      by (rewrite E; left; reflexivity).
-    apply in_existing_gen in Ht as (j & l & c & nm & f & Hj & Hc & Hf & _).
-    unfold cand_names in Hc. apply in_map_iff in Hc as (c0 & E0 & Hc0). inversion E0; subst c0 nm.
+    assert (Ht : In t (t :: r)) by (left; reflexivity). rewrite <- E in Ht.
+    apply in_existing_gen in Ht as (j & l & c & nm & f & Hj & Hcn & Hf & _).
+    unfold cand_names in Hcn. apply in_map_iff in Hcn as (c0 & E0 & Hc0). inversion E0; subst c0 nm.
     rewrite nth_error_map in Hj. destruct (nth_error bases j) as [bj|] eqn:Hbj; [|discriminate].
     cbn in Hj. inversion Hj; subst l. rewrite <- join_prefix in Hf.
-    (* c is documented, hence in the code order (coverage) *)
-    pose proof (code_order_ext k) as X. unfold linear_extension in X.
-    apply andb_prop in X as [X _]. apply andb_prop in X as [_ X]. rewrite forallb_forall in X.
-    specialize (X c Hc0). apply existsb_exists in X as (c1 & Hc1 & Ecc). apply scand_eqb_eq in Ecc. subst c1.
-    assert (Hq : In (spec_name b n c) (map (spec_name b n) (code_order k))) by (apply in_map; exact Hc1).
-    apply H in Hq. apply (proj1 (load_paths_none _ _ _ (spec_name_nonempty b n c))) with (b := bj) in Hq; [|eapply nth_error_In; eauto].
-    rewrite Hq in Hf. discriminate.
-  - intros E q Hq. apply in_map_iff in Hq as (c & <- & Hc).
-    apply load_paths_none; [apply spec_name_nonempty|]. intros bj Hbj.
-    destruct (isfile (join bj (spec_name b n c))) eqn:F; [|reflexivity]. exfalso.
-    apply In_nth_error in Hbj as (j & Hj).
-    assert (Ht : In (j, c, s) (existing_gen isfile (map dir_prefix bases) (cand_names (is_import k) b n))).
-    { apply in_existing_gen. exists j, (dir_prefix bj), c, (spec_name b n c), s. repeat split.
+    apply nth_error_In in Hbj. rewrite (H c bj Hc0 Hbj) in Hf. discriminate.
+  - intros E c bj Hc0 Hbj.
+    destruct (isfile (join bj (spec_name (fst (split_dir url)) (snd (split_dir url)) c))) eqn:F; [|reflexivity].
+    exfalso. apply In_nth_error in Hbj as (j & Hj).
+    assert (Ht : In (j, c, s) (existing_gen isfile (map dir_prefix bases)
+                                 (cand_names (is_import k) (fst (split_dir url)) (snd (split_dir url))))).
+    { apply in_existing_gen. exists j, (dir_prefix bj), c, (spec_name (fst (split_dir url)) (snd (split_dir url)) c), s.
+      repeat split; auto.
       - rewrite nth_error_map, Hj. reflexivity.
-      - unfold cand_names. apply in_map_iff. exists c. split; auto. apply code_order_documented. exact Hc.
+      - unfold cand_names. apply in_map_iff. exists c. auto.
       - rewrite <- join_prefix. exact F. }
     rewrite E in Ht. destruct Ht.
 Qed.
 
 End Main.
 
-(* a root importer: relative() leaves the url unchanged *)
-Lemma relative_root cur url : fst (split_dir cur) = "" -> relative cur url = url.
-Proof. unfold relative. intros ->. reflexivity. Qed.
+(* ---------- importer in a sub-directory (after fix 3dfdada) ---------- *)
+Section Subdir.
+Variable isfile : string -> option string.
+Variable b0 : string.                 (* the load path under which the importing file was found *)
+Variable others : list string.        (* the other load paths, in order *)
+Let bases := b0 :: others.
+
+(* for an importer known as `cur` (directory part d <> ""), found under b0: provided no candidate
+   exists as <other load path>/<d>/.. (class K2), the resolved file is one the text allows with the
+   places: the importing file's directory, then every load path *)
+Theorem subdir_allowed cur k url p f rd s' :
+  let d := fst (split_dir cur) in
+  let b := fst (split_dir url) in let n := snd (split_dir url) in
+  d <> "" -> is_direct url = false -> is_direct (relative cur url) = false ->
+  (forall bo c, In bo others -> In c (spec_cands (is_import k)) ->
+      isfile (join bo (d ++ spec_name b n c)%string) = None) ->
+  resolve isfile bases cur k url = FFound p f rd s' ->
+  In f (allowed isfile (is_import k) ((dir_prefix b0 ++ d)%string :: map dir_prefix bases) b n).
+Proof.
+  intros d b n Hd Hdu Hdr HK2 H.
+  assert (Sp : split_dir (relative cur url) = ((d ++ b)%string, n)).
+  { unfold relative. fold d. unfold d. rewrite split_dir_prefix by apply split_dir_selfdir. reflexivity. }
+  unfold resolve in H. rewrite find_file_two_phase in H.
+  assert (Hneq : String.eqb (relative cur url) url = false).
+  { apply String.eqb_neq. unfold relative. fold d. apply prefix_neq. exact Hd. }
+  rewrite Hneq in H.
+  change (try_names (orc_of (fs_find isfile bases)) (st0 "") (probe_names (relative cur url) (cands k)))
+    with (scan isfile bases (relative cur url) k (st0 "")) in H.
+  destruct (scan isfile bases (relative cur url) k (st0 "")) as [p1 f1 rd1 s1|s1|s1] eqn:Ph1.
+  - (* found relative to the importing file *)
+    inversion H; subst p1 f1 rd1 s1. clear H.
+    apply scan_found in Ph1 as (c & lpre & lpost & bpre & bx & bpost & Hl & Hp & Hb & Hfile & Hbpre & Hlpre); auto.
+    rewrite Sp in Hp, Hlpre. cbn [fst snd] in Hp, Hlpre. rewrite spec_name_prefix in Hp.
+    assert (Hcdoc : In c (spec_cands (is_import k))).
+    { apply code_order_documented. rewrite Hl. apply in_or_app; right; left; reflexivity. }
+    assert (Hbx : bpre = [] /\ bx = b0).
+    { destruct bpre as [|y r]; cbn in Hb; inversion Hb as [[Hy Ho]]; [auto|]. exfalso.
+      assert (Hin : In bx others) by (rewrite Ho; apply in_or_app; right; left; reflexivity).
+      pose proof Hfile as Hf2. rewrite Hp, (HK2 bx c Hin Hcdoc) in Hf2. discriminate. }
+    destruct Hbx as [-> ->].
+    apply (allowed_intro isfile _ _ _ _ 0 (dir_prefix b0 ++ d)%string c); auto.
+    + rewrite app_assoc_s, <- join_prefix, <- Hp. exact Hfile.
+    + intros j l' c' f' Hj Hc' Hf' Le. assert (j = 0) by lia. subst j. cbn in Hj. inversion Hj; subst l'.
+      split; [reflexivity|].
+      destruct (doc_before c' c) eqn:Db; [|reflexivity]. exfalso.
+      pose proof (doc_before_pre k c c' lpre lpost Hl Hc' Hcdoc Db) as Hin.
+      specialize (Hlpre c' b0 Hin (or_introl eq_refl)). rewrite spec_name_prefix in Hlpre.
+      rewrite app_assoc_s, <- join_prefix in Hf'. rewrite Hlpre in Hf'. discriminate.
+  - (* nothing relative to the importing file: the url unchanged, in every load path *)
+    assert (N1 : forall c b', In c (spec_cands (is_import k)) -> In b' bases ->
+                   isfile (join b' (d ++ spec_name b n c)%string) = None).
+    { intros c b' Hc Hb'. pose proof (proj1 (scan_none isfile bases (relative cur url) k (st0 "") Hdr)) as X.
+      specialize (X (ex_intro _ s1 Ph1) c b' Hc Hb'). rewrite Sp in X. cbn [fst snd] in X.
+      rewrite spec_name_prefix in X. exact X. }
+    change (try_names (orc_of (fs_find isfile bases)) s1 (probe_names url (cands k)))
+      with (scan isfile bases url k s1) in H.
+    apply scan_found in H as (c & lpre & lpost & bpre & bx & bpost & Hl & Hp & Hb & Hfile & Hbpre & Hlpre); auto.
+    fold b n in Hp, Hlpre.
+    assert (Hcdoc : In c (spec_cands (is_import k))).
+    { apply code_order_documented. rewrite Hl. apply in_or_app; right; left; reflexivity. }
+    apply (allowed_intro isfile _ _ _ _ (S (List.length bpre)) (dir_prefix bx) c); auto.
+    + cbn [nth_error]. rewrite Hb, map_app. cbn. rewrite <- (map_length dir_prefix bpre). apply nth_error_pre.
+    + rewrite <- join_prefix, <- Hp. exact Hfile.
+    + intros j l' c' f' Hj Hc' Hf' Le. destruct j as [|j].
+      * exfalso. cbn in Hj. inversion Hj; subst l'.
+        rewrite app_assoc_s, <- join_prefix in Hf'. rewrite (N1 c' b0 Hc' (or_introl eq_refl)) in Hf'. discriminate.
+      * cbn [nth_error] in Hj. rewrite nth_error_map in Hj.
+        destruct (nth_error bases j) as [bj|] eqn:Hbj; [|discriminate].
+        cbn in Hj. inversion Hj; subst l'. clear Hj. rewrite <- join_prefix in Hf'. split.
+        -- intros ->. destruct (Nat.eq_dec j (List.length bpre)) as [->|Ne]; [reflexivity|]. exfalso.
+           assert (Hlt : j < List.length bpre) by lia.
+           rewrite Hb, nth_error_app1 in Hbj by assumption. apply nth_error_In in Hbj.
+           rewrite <- Hp, (Hbpre bj Hbj) in Hf'. discriminate.
+        -- destruct (doc_before c' c) eqn:Db; [|reflexivity]. exfalso.
+           pose proof (doc_before_pre k c c' lpre lpost Hl Hc' Hcdoc Db) as Hin.
+           apply nth_error_In in Hbj. rewrite (Hlpre c' bj Hin Hbj) in Hf'. discriminate.
+  - discriminate.
+Qed.
+
+End Subdir.
 
 (* ---------- plain css fallback ---------- *)
 
@@ -439,9 +635,8 @@ Lemma load_not_found orc content f unq cur k u s s' :
     if is_import k && spec_plain_import u unq then ROk (push_import u s') else RErr ENotFound s'.
 Proof. intros H. cbn [load]. rewrite H, plain_css_spec. reflexivity. Qed.
 
-(* ---------- importers in a sub-directory: the statement is false ---------- *)
+(* ---------- the statement for importers anywhere is still false (class K2) ---------- *)
 
-(* the statement, for importers anywhere: places = the importing file's directory, then the load paths *)
 Definition resolved_file (files bases : list string) (cur : string) (k : kind) (url : string) : option string :=
   match resolve (fs_isfile files) bases cur k url with FFound _ f _ _ => Some f | _ => None end.
 
@@ -457,16 +652,10 @@ Definition C04_statement : Prop :=
   forall files bases curid cur k url,
     fs_lookup files bases cur = Some curid -> is_direct url = false -> C04_holds_at files bases curid cur k url.
 
-Lemma refuted_unchanged :
-  exists files bases curid cur k url,
-    fs_lookup files bases cur = Some curid /\ is_direct url = false /\
-    resolved_file files bases cur k url = None /\
-    allowed (fs_isfile files) (is_import k) (fst (split_dir curid) :: map dir_prefix bases)
-      (fst (split_dir url)) (snd (split_dir url)) = ["L1/b.scss"].
-Proof.
-  exists ["R/t.scss"; "R/sub/a.scss"; "L1/b.scss"], ["R"; "L1"], "R/sub/a.scss", "sub/a.scss", KUse, "b".
-  vm_compute. auto.
-Qed.
+(* F9 (fixed by 3dfdada): the url unchanged in a load path is now found *)
+Lemma unchanged_now_found :
+  resolved_file ["R/t.scss"; "R/sub/a.scss"; "L1/b.scss"] ["R"; "L1"] "sub/a.scss" KUse "b" = Some "L1/b.scss".
+Proof. vm_compute. reflexivity. Qed.
 
 Lemma refuted_loadpath :
   exists files bases curid cur k url,
@@ -481,6 +670,6 @@ Qed.
 
 Lemma statement_refuted : ~ C04_statement.
 Proof.
-  intros H. destruct refuted_unchanged as (files & bases & curid & cur & k & url & H1 & H2 & H3 & H4).
-  specialize (H files bases curid cur k url H1 H2). unfold C04_holds_at in H. rewrite H3, H4 in H. discriminate.
+  intros H. destruct refuted_loadpath as (files & bases & curid & cur & k & url & H1 & H2 & H3 & H4).
+  specialize (H files bases curid cur k url H1 H2). unfold C04_holds_at in H. rewrite H3, H4 in H. destruct H.
 Qed.
